@@ -1,0 +1,61 @@
+//go:build verif
+
+// Contracts for govc (see /verif/DESIGN.md). Comment-only; compiled only with -tags verif.
+
+package shared
+
+//@ property C11 C05
+
+// ---- ghost model of a chunk under construction (interface Chunker) ---------------------------------------------------
+// ckn[c]: records written into chunker c so far; ckok[c]: the data length the last CanAppendData call approved (-1 none).
+// nwritten: streams handed to the packer so far; nemitted: streams contained in the chunks it has returned so far.
+//@ ghost var ckn [1099511627776]int
+//@ ghost var ckok [1099511627776]int
+//@ ghost var nwritten int
+//@ ghost var nemitted int
+//@ ghost field LogChunk.dummy int
+
+// A record may be appended without asking only to an empty chunk ("no chunk exceeds the limits unless a single record
+// alone does"); otherwise CanAppendData must have approved exactly this length since the last change of the chunk.
+//@ extern func (c Chunker) CanAppendData(dataLength int) bool
+//@   modifies ckok[ref(c)]
+//@   ensures  ckok[ref(c)] == (result ? dataLength : -1)
+//@ extern func (c Chunker) Write(data base.LogStream) error
+//@   requires[limit-checked-before-write] ckn[ref(c)] == 0 || ckok[ref(c)] == len(data)
+//@   modifies ckn[ref(c)], ckok[ref(c)]
+//@   ensures  ckok[ref(c)] == -1 && (result == nil ==> ckn[ref(c)] == old(ckn[ref(c)]) + 1) && (result != nil ==> ckn[ref(c)] == old(ckn[ref(c)]))
+//@   ensures[in-memory-writers-do-not-fail] result == nil
+//@ extern func (c Chunker) FinalizeChunk() (*base.LogChunk, error)
+//@   ensures  result.1 == nil ==> result.0 != nil && base.chunkrecords(result.0) == ckn[ref(c)]
+//@   ensures[in-memory-writers-do-not-fail] result.1 == nil
+
+// trusted: the chunk function of an output builds a new, empty chunk
+//@ fieldspec IntermediateChunkFactory.newChunkFunc(id string, writeBuffer *bytes.Buffer) Chunker
+//@   modifies ckn, ckok
+//@   ensures  result != nil && ckn[ref(result)] == 0 && ckok[ref(result)] == -1
+//@   ensures  forall k int :: k != ref(result) ==> ckn[k] == old(ckn[k]) && ckok[k] == old(ckok[k])
+
+// representation invariant of the packer: the current chunk holds exactly the streams [nemitted, nwritten)
+//@ pure func packerok(p *messagePacker) bool :=
+//@     p != nil && p.chunkFactory != nil && p.chunkFactory.idGenerator != nil && p.chunkFactory.newChunkFunc != nil && nemitted <= nwritten
+//@  && (p.currentChunk == nil ==> nemitted == nwritten) && (p.currentChunk != nil ==> ckn[ref(p.currentChunk)] == nwritten - nemitted && nwritten > nemitted)
+
+// "Concatenating the chunks in emission order reproduces the record sequence": a returned chunk holds exactly the
+// streams [old nemitted, old nwritten) — everything handed in before this one and not yet emitted — and this stream
+// becomes the first (or next) element of the current chunk.
+//@ func (packer *messagePacker) WriteStream(stream base.LogStream) *base.LogChunk
+//@   requires packerok(packer)
+//@   modifies packer.currentChunk, ckn, ckok, nwritten, nemitted, chunkIDGenerator.epochNano, chunkIDGenerator.sequence, sync.Mutex.*
+//@   ghostset nwritten := nwritten + 1
+//@   ensures[write-failure-aside] packer.currentChunk != nil
+//@   ensures[contiguous] result != nil ==> base.chunkrecords(result) == old(nwritten) - old(nemitted) && nemitted == old(nwritten)
+//@   ensures[nothing-dropped] result == nil ==> nemitted == old(nemitted) || (nemitted == old(nwritten))
+//@   ensures  nwritten == old(nwritten) + 1
+
+//@ func (packer *messagePacker) FlushBuffer() *base.LogChunk
+//@   requires packerok(packer)
+//@   modifies packer.currentChunk, nemitted
+//@   ghostset nemitted := (result != nil ? nwritten : nemitted)
+//@   ensures  result != nil ==> base.chunkrecords(result) == nwritten - old(nemitted) && nemitted == nwritten && packer.currentChunk == nil
+//@   ensures  result == nil ==> nemitted == old(nemitted) && packer.currentChunk == old(packer.currentChunk)
+//@   ensures  old(packer.currentChunk) != nil ==> result != nil
